@@ -1001,6 +1001,50 @@ theorem trans_C03_C11_finishTail_v1 (t : Nat) (costs : List Nat) (ht : t < 42949
   simp only [v1_finishTail, hsum, Int.zero_add]
   rw [hsub]
 
+/-! ### SharedResource: what the loop does with the answer of a lease call (the repaired finding F7) -/
+
+/-- the loop counts a partition only for a lease the store granted (`granted > 0` ns) and that has not run out while
+the answer travelled (`elapsed < granted`); the goroutine that stops counting it sleeps `granted - elapsed`, i.e. the
+partition is counted until exactly `granted` after the REQUEST was issued - never longer than the store's lease,
+whatever the latency of the call; a late answer is dropped (nothing marked, nothing spawned) -/
+theorem trans_C04_C09_grant_v2 (r : T_v2_sharedResource_grant) (now granted elapsed : Nat) :
+    (v2_sr_grant r now granted elapsed).2 =
+      (if granted = 0 ∨ granted ≤ elapsed then (false, 0, false) else (true, ((granted - elapsed : Nat) : Int), true)) := by
+  by_cases h0 : granted = 0
+  · simp [v2_sr_grant, h0]
+  · by_cases h1 : granted ≤ elapsed
+    · have h1' : (granted : Int) - (elapsed : Int) ≤ 0 := by omega
+      have h0' : ¬ (granted : Int) = 0 := by omega
+      simp [v2_sr_grant, h0, h1, h1', h0']
+    · have h1' : ¬ (granted : Int) - (elapsed : Int) ≤ 0 := by omega
+      have h0' : ¬ (granted : Int) = 0 := by omega
+      simp [v2_sr_grant, h0, h1, h1', h0']
+      omega
+
+theorem trans_C04_C09_grant_v1 (r : T_v1_AzureSharedResource_grant) (now granted elapsed : Nat) :
+    v1_sr_grant r now granted elapsed =
+      (if granted = 0 ∨ granted ≤ elapsed then (false, 0, false) else (true, ((granted - elapsed : Nat) : Int), true)) := by
+  by_cases h0 : granted = 0
+  · simp [v1_sr_grant, h0]
+  · by_cases h1 : granted ≤ elapsed
+    · have h1' : (granted : Int) - (elapsed : Int) ≤ 0 := by omega
+      have h0' : ¬ (granted : Int) = 0 := by omega
+      simp [v1_sr_grant, h0, h1, h1', h0']
+    · have h1' : ¬ (granted : Int) - (elapsed : Int) ≤ 0 := by omega
+      have h0' : ¬ (granted : Int) = 0 := by omega
+      simp [v1_sr_grant, h0, h1, h1', h0']
+      omega
+
+/-- the instant the partition stops being counted: request time + elapsed + sleep = request time + lease -/
+theorem trans_C04_counted_until_issue_plus_lease_v2 (r : T_v2_sharedResource_grant) (now granted elapsed : Nat)
+    (h : (v2_sr_grant r now granted elapsed).2.2.2 = true) :
+    (now : Int) + elapsed + (v2_sr_grant r now granted elapsed).2.2.1 = now + granted := by
+  rw [trans_C04_C09_grant_v2] at h ⊢
+  by_cases hc : granted = 0 ∨ granted ≤ elapsed
+  · simp [hc] at h
+  · simp only [hc, if_false]
+    omega
+
 /-! ### non-vacuity: the translated functions on concrete values (also a readable trace of what they compute) -/
 
 example : v2_incTarget ⟨7⟩ 5 = ⟨12⟩ ∧ v2_incTarget ⟨7⟩ (-5) = ⟨2⟩ ∧ v2_incTarget ⟨7⟩ (-9) = ⟨0⟩ ∧ v2_incTarget ⟨7⟩ 0 = ⟨7⟩ := by decide
